@@ -296,25 +296,50 @@ func (vc *VC) zero(sort string) string {
 		}
 		return fmt.Sprintf("(mk_%s %s)", sort, strings.Join(parts, " "))
 	case kSlice:
-		return fmt.Sprintf("(mk_%s ((as const (Array %s %s)) %s) %s true)", sort, vc.intSort(), inf.Elem, vc.zero(inf.Elem), vc.intLit(0))
+		return fmt.Sprintf("(mk_%s %s %s true)", sort, vc.constArr(vc.intSort(), inf.Elem), vc.intLit(0))
 	case kArray:
-		return fmt.Sprintf("((as const %s) %s)", sort, vc.zero(inf.Elem))
+		return vc.constArr(vc.intSort(), inf.Elem)
 	case kMap:
-		return fmt.Sprintf("(mk_%s ((as const (Array %s Bool)) false) ((as const (Array %s %s)) %s) %s true)", sort, inf.Key, inf.Key, inf.Elem, vc.zero(inf.Elem), vc.intLit(0))
+		return fmt.Sprintf("(mk_%s ((as const (Array %s Bool)) false) %s %s true)", sort, inf.Key, vc.constArr(inf.Key, inf.Elem), vc.intLit(0))
 	}
 	panic(unsupported("zero of sort " + sort))
+}
+
+// constArr: an array whose every element is the zero value of elem. SMT-LIB constant arrays need a
+// value; for zero terms that are uninterpreted constants (strings, CIDs, nil of opaque sorts) a named
+// array with a defining axiom is used instead (cvc5 rejects non-value constant arrays).
+func (vc *VC) constArr(key, elem string) string {
+	z := vc.zero(elem)
+	if !strings.ContainsAny(z, "abcdefghijklmnopqrstuvwxyz") || z == "false" || z == "true" {
+		return fmt.Sprintf("((as const (Array %s %s)) %s)", key, elem, z)
+	}
+	simple := true
+	for _, w := range []string{"str_empty", "cid_undef", "nil_", "zeroarr", "zarr_"} {
+		if strings.Contains(z, w) {
+			simple = false
+		}
+	}
+	if simple {
+		return fmt.Sprintf("((as const (Array %s %s)) %s)", key, elem, z)
+	}
+	name := "zarr_" + sanitize(key) + "_" + sanitize(elem)
+	if !vc.declared["const:"+name] {
+		vc.declConst(name, fmt.Sprintf("(Array %s %s)", key, elem))
+		vc.fact(fmt.Sprintf("(forall ((i!z %s)) (! (= (select %s i!z) %s) :pattern ((select %s i!z))))", key, name, z, name))
+	}
+	return name
 }
 
 // emptyMap: a non-nil empty map of the given sort
 func (vc *VC) emptyMap(sort string) string {
 	inf := vc.info(sort)
-	return fmt.Sprintf("(mk_%s ((as const (Array %s Bool)) false) ((as const (Array %s %s)) %s) %s false)", sort, inf.Key, inf.Key, inf.Elem, vc.zero(inf.Elem), vc.intLit(0))
+	return fmt.Sprintf("(mk_%s ((as const (Array %s Bool)) false) %s %s false)", sort, inf.Key, vc.constArr(inf.Key, inf.Elem), vc.intLit(0))
 }
 
 // emptySlice: a non-nil empty slice
 func (vc *VC) emptySlice(sort string) string {
 	inf := vc.info(sort)
-	return fmt.Sprintf("(mk_%s ((as const (Array %s %s)) %s) %s false)", sort, vc.intSort(), inf.Elem, vc.zero(inf.Elem), vc.intLit(0))
+	return fmt.Sprintf("(mk_%s %s %s false)", sort, vc.constArr(vc.intSort(), inf.Elem), vc.intLit(0))
 }
 
 // nilTerm: the nil of a sort (pointer, slice, map, interface, func, chan)
